@@ -296,7 +296,9 @@ func c06ProveBound(r *core.R, m *pbfModel, f *c01Fn, hi ast.Expr, pos token.Pos)
 	if bt, ok := info.TypeOf(hi).Underlying().(*types.Basic); ok && bt.Info()&types.IsUnsigned != 0 {
 		out.nonNeg = true
 	}
-	c06BoundsFromFacts(fs, info, f.factsAtPos(pos), func(e ast.Expr) bool { return c06SameValue(info, f.body, e, f.body, hi) }, out, f.fi.Name())
+	isHi := func(e ast.Expr) bool { return c06SameValue(info, f.body, e, f.body, hi) }
+	c06BoundsFromFacts(fs, info, f.factsAtPos(pos), isHi, out, f.fi.Name())
+	c06ValidatorBounds(r, f, f.factsAtPos(pos), isHi, out, 0)
 	// (2) the value comes out of a call
 	v := c01StripConv(info, c01Expand(info, f.body, c01StripConv(info, hi)))
 	var getter *types.Func
@@ -365,6 +367,7 @@ func c06ProveBound(r *core.R, m *pbfModel, f *c01Fn, hi ast.Expr, pos token.Pos)
 			one.nonNeg = cv >= 0
 		}
 		c06BoundsFromFacts(fs, info, facts, isVal, one, cf.Name())
+		c06ValidatorBounds(r, g, facts, isVal, one, 0)
 		if !one.hasUpper {
 			merged.hasUpper = false
 		} else if one.upper > merged.upper {
